@@ -1,4 +1,4 @@
-From DF Require Import Base.Prelude Model.WindowFrame Proofs.WindowFrameProofs Props.C09.
+From DF Require Import Base.Prelude Model.WindowFrame Model.WindowFrameGroups Proofs.WindowFrameProofs Props.C09.
 Open Scope Z_scope.
 Check C09_frame_is_interval :
   forall so f ks i s e,
@@ -22,6 +22,11 @@ Check C09_range_step :
 Check C09_range_resume :
   forall f ps i' i s e,
     sorted_pos ps -> (i' <= i < length ps)%nat -> delimits f ps i' s e ->
+    (forall j, (j < s)%nat -> ext_lt (nth j ps PInf) (lo_of (fstart f) (nth i ps PInf)) = true) /\
+    (forall j, (j < e)%nat -> ext_le (nth j ps PInf) (hi_of (fend f) (nth i ps PInf)) = true).
+Check C09_range_resume_prefix :
+  forall f ps m i' i s e,
+    sorted_pos ps -> (i' < m <= length ps)%nat -> (i' <= i < length ps)%nat -> delimits f (firstn m ps) i' s e ->
     (forall j, (j < s)%nat -> ext_lt (nth j ps PInf) (lo_of (fstart f) (nth i ps PInf)) = true) /\
     (forall j, (j < e)%nat -> ext_le (nth j ps PInf) (hi_of (fend f) (nth i ps PInf)) = true).
 Check C09_range_range_eq_def :
@@ -48,6 +53,8 @@ Check C09_acc_values :
 Check C09_frame_values :
   forall (l : list (option Z)) d n s, (s + n <= length l)%nat ->
     map (fun j => nth j l d) (seq s n) = slice l s (s + n).
+Check C09_groups_eq_def_bounded :
+  groups_exhaustive 7 3 = true.
 Check C09_rows_overflow_refuted :
   exists f len idx, frame_valid f = true /\ funits f = Rows /\ 0 <= idx < len /\ rows_range f len idx = OOverflow.
 Check C09_range_overflow_refuted :
@@ -68,12 +75,14 @@ Print Assumptions C09_frame_is_interval.
 Print Assumptions C09_rows_range_eq_def.
 Print Assumptions C09_range_step.
 Print Assumptions C09_range_resume.
+Print Assumptions C09_range_resume_prefix.
 Print Assumptions C09_range_range_eq_def.
 Print Assumptions C09_positions_sorted.
 Print Assumptions C09_frame_monotone.
 Print Assumptions C09_sliding_eq_recompute.
 Print Assumptions C09_acc_values.
 Print Assumptions C09_frame_values.
+Print Assumptions C09_groups_eq_def_bounded.
 Print Assumptions C09_rows_overflow_refuted.
 Print Assumptions C09_range_overflow_refuted.
 Print Assumptions C09_nonvacuous.
